@@ -14,7 +14,7 @@ MANIFEST = {
                  "decoded aggregates, bytes and mutated fields after every operation) + failing-input search on every node of every "
                  "decoded tree and on aggregates, also after the setter calls / field updates applications make",
     "level_text": "PROOF for the modelled universe. Boxes (coq/c02/C02Theorems.v): C02_leaf (bytes written = Size() for ftyp styp free "
-                  "skip mdat mfhd tfhd tfdt trun mvhd tkhd sidx trex mdhd hdlr stts stsc stsz stco co64 stss sdtp ctts elst saiz saio sbgp prft tenc frma vmhd smhd nmhd sthd mfro mehd tfra pssh url avcC btrt pasp colr clap schm cslg senc(raw) emsg elng kind hvcC subs esds uuid and the field prefixes of stsd dref Visual/AudioSampleEntry, all versions and flag sets), C02_tree (at "
+                  "skip mdat mfhd tfhd tfdt trun mvhd tkhd sidx trex mdhd hdlr stts stsc stsz stco co64 stss sdtp ctts elst saiz saio sbgp prft tenc frma vmhd smhd nmhd sthd mfro mehd tfra pssh url avcC btrt pasp colr clap schm cslg senc(raw) emsg elng kind hvcC subs esds uuid sgpd and the field prefixes of stsd dref Visual/AudioSampleEntry, all versions and flag sets), C02_tree (at "
                   "EVERY node of a tree of those leaves, pure containers and unknown boxes: the encoder succeeds, writes size_box "
                   "bytes, and the size field it writes is size_box; container = 8 + sum of children, also under the moov child "
                   "re-ordering), C02_encode_w / C02_encode_sw (both encode paths, conditional on success) and C02_encode_ok. "
